@@ -408,6 +408,7 @@ class Executor:
         return v.t
 
     def store_subscript(self, st, obj: V, sl, v: V, node):
+        obj = self.unopt(st, obj, node, 'subscript-store')
         if obj.kind == 'dict':
             key = self.ev(st, sl)
             st.dict_set(obj, key, v)
@@ -584,6 +585,104 @@ class Executor:
                     calls = True
         return names, fields, calls
 
+    def written_fields(self, st: State, run_body, seed_fields: set[str]) -> set[str]:
+        """Heap fields one iteration may write, by trial execution on a havocked state
+        (fixpoint; obligations of the trial runs are discarded).  Also infers, per field,
+        a frame: `self.loop_frame[f]` = list of pre-existing references that may be written
+        (loop-invariant terms); every other pre-existing object keeps its value."""
+        from .state import occurs
+        S = set(seed_fields)
+        self.loop_frame = {}
+        for _ in range(6):
+            trial = st.copy()
+            tconsts = []
+            for f in S:
+                cur = trial.field(f)
+                c = z3.Const(fresh_name(f'T!{f}'), cur.sort())
+                trial.heap[f] = c
+                tconsts.append(c)
+            before = dict(trial.heap)
+            mark = len(self.ctx.obligs)
+            seq_mark = dict(self.ctx.oblig_seq)
+            loop_mark = self.frame.loop_ordinal
+            self.trial_consts = tconsts
+            try:
+                outs = run_body(trial)
+            finally:
+                del self.ctx.obligs[mark:]
+                self.ctx.oblig_seq = seq_mark
+                self.frame.loop_ordinal = loop_mark
+            tconsts = self.trial_consts
+            written = set()
+            frames: dict[str, list | None] = {}
+            for o in outs:
+                new_fresh = o.st.fresh - st.fresh
+                for f, arr in o.st.heap.items():
+                    if f not in before or not arr.eq(before[f]):
+                        written.add(f)
+                        tg = None
+                        if f in before:
+                            tg = self.store_targets(arr, before[f], new_fresh, o.st.havoc_parent)
+                        if tg is not None:
+                            tg = [t for t in tg]
+                            if any(any(occurs(c, t) for c in tconsts) for t in tg):
+                                tg = None
+                        if tg is None or frames.get(f, []) is None:
+                            frames[f] = None
+                        else:
+                            cur_l = frames.setdefault(f, [])
+                            for t in tg:
+                                if not any(t.eq(x) for x in cur_l):
+                                    cur_l.append(t)
+            if written <= S:
+                self.loop_frame = {f: frames.get(f, []) for f in S if frames.get(f, []) is not None}
+                return S
+            S |= written
+        self.loop_frame = {}
+        return S | set(st.heap.keys())
+
+    def store_targets(self, arr, base, fresh_ids: set, parents: dict | None = None):
+        """`arr` is `base` updated by stores: the list of store targets that are not freshly
+        allocated references; None when the update is not a chain of stores."""
+        seen = set()
+        todo = [arr]
+        targets = []
+        while todo:
+            a = todo.pop()
+            if a.get_id() in seen:
+                continue
+            seen.add(a.get_id())
+            if a.eq(base):
+                continue
+            if z3.is_app(a) and a.decl().kind() == z3.Z3_OP_STORE:
+                if a.arg(1).get_id() not in fresh_ids:
+                    targets.append(a.arg(1))
+                todo.append(a.arg(0))
+            elif z3.is_app(a) and a.decl().kind() == z3.Z3_OP_ITE:
+                todo.append(a.arg(1))
+                todo.append(a.arg(2))
+            elif parents and a.get_id() in parents:
+                par, excl = parents[a.get_id()]
+                targets.extend(excl)
+                todo.append(par)
+            else:
+                return None
+        return targets
+
+    def havoc_fields(self, hs: State, st: State, heap_mod: set, frame: dict):
+        for f in heap_mod:
+            cur = hs.field(f)
+            new = z3.Const(fresh_name(f'H!{f}'), cur.sort())
+            hs.heap[f] = new
+            if f in frame:
+                # objects that existed before the loop and are not among the (loop-invariant)
+                # store targets keep their value
+                r = z3.Int(fresh_name('r'))
+                excl = [r != t for t in frame[f]]
+                hs.pc.append(z3.ForAll([r], z3.Implies(z3.And(r < st.alloc, *excl),
+                                                      z3.Select(new, r) == z3.Select(cur, r))))
+                hs.havoc_parent[new.get_id()] = (cur, list(frame[f]))
+
     def invariant_for(self, st, node, view, ordinal, inv):
         """Hoare rule: inv(0) at entry; havoc; assume inv(k), 0<=k<n; body; assert inv(k+1);
         after the loop assume inv(n)."""
@@ -597,36 +696,41 @@ class Executor:
         n = view.n
         # 1. invariant holds initially
         for label, src in inv_clauses.items():
-            g = self.spec_bool(st, src, {'_k': v_int(z3.IntVal(0)), '_n': v_int(n)})
-            ctx.add_oblig(st, 'inv-init', f'L{ordinal}:{label}', g, line=node.lineno)
+            self.spec_goal(st, 'inv-init', f'L{ordinal}:{label}', src, {'_k': v_int(z3.IntVal(0)), '_n': v_int(n)}, line=node.lineno)
         # 2. havoc
         pre_heap = dict(st.heap)
         hs = st.copy()
         heap_mod = set(mod_fields) | extra_fields
-        if calls:
-            # calls may modify the heap through contracts: over-approximate by the
-            # fields named in modifies clauses of callees; resolved lazily -> havoc all
-            # fields written so far plus declared extras.  A precise set comes from the
-            # loop contract's `modifies`.
-            if inv is not None and inv.modifies_exact:
-                heap_mod = set(inv.modifies)
-            else:
-                heap_mod |= set(st.heap.keys())
-        for f in heap_mod:
-            cur = hs.field(f)
-            hs.heap[f] = z3.Const(fresh_name(f'H!{f}'), cur.sort())
+        alloc_only = {}
+        if inv is not None and inv.modifies_exact:
+            heap_mod = set(inv.modifies)
+        else:
+            def run_body(trial):
+                for name in mod_names:
+                    if name in trial.locals:
+                        trial.locals[name] = V(fresh_val(name), trial.locals[name].ty)
+                        self.trial_consts.append(trial.locals[name].t)
+                kk = fresh_int('k')
+                self.trial_consts.append(kk)
+                trial.assume(z3.And(kk >= 0, kk < n))
+                trial.mark_nonneg(kk)
+                self.assign(trial, node.target, view.get(trial, kk))
+                return self.exec_block(trial, node.body)
+            heap_mod = self.written_fields(st, run_body, heap_mod)
+            alloc_only = dict(self.loop_frame)
+        self.havoc_fields(hs, st, heap_mod, alloc_only)
         for name in mod_names:
             if name in hs.locals:
                 old = hs.locals[name]
                 nv = V(fresh_val(name), old.ty)
                 hs.locals[name] = nv
-                for fct in type_invariant(nv):
-                    hs.assume(fct)
+                hs.assume_type(nv)
         hs.alloc = fresh_int('alloc')
         hs.assume(hs.alloc >= st.alloc)
         k = fresh_int('k')
         env_k = {'_k': v_int(k), '_n': v_int(n)}
         hs.assume(z3.And(k >= 0, k <= n))
+        hs.mark_nonneg(k)
         for label, src in inv_clauses.items():
             hs.assume(self.spec_bool(hs, src, env_k))
         # 3. exit state: k == n
@@ -641,8 +745,7 @@ class Executor:
         for o in self.exec_block(bs, node.body):
             if o.kind in ('normal', 'continue'):
                 for label, src in inv_clauses.items():
-                    g = self.spec_bool(o.st, src, env_k1)
-                    ctx.add_oblig(o.st, 'inv-step', f'L{ordinal}:{label}', g, line=node.lineno)
+                    self.spec_goal(o.st, 'inv-step', f'L{ordinal}:{label}', src, env_k1, line=node.lineno)
             elif o.kind == 'break':
                 outs.append(Outcome('normal', o.st))
             else:
@@ -659,21 +762,30 @@ class Executor:
         mod_names, mod_fields, calls = self.modified_in(node.body)
         inv_clauses = inv.clauses if inv is not None else {}
         for label, src in inv_clauses.items():
-            ctx.add_oblig(st, 'inv-init', f'L{ordinal}:{label}', self.spec_bool(st, src, {}), line=node.lineno)
+            self.spec_goal(st, 'inv-init', f'L{ordinal}:{label}', src, {}, line=node.lineno)
         hs = st.copy()
         heap_mod = set(mod_fields) | (set(inv.modifies) if inv is not None else set())
-        if calls and not (inv is not None and inv.modifies_exact):
-            heap_mod |= set(st.heap.keys())
-        for f in heap_mod:
-            cur = hs.field(f)
-            hs.heap[f] = z3.Const(fresh_name(f'H!{f}'), cur.sort())
+        alloc_only = {}
+        if inv is not None and inv.modifies_exact:
+            heap_mod = set(inv.modifies)
+        else:
+            def run_body(trial):
+                for name in mod_names:
+                    if name in trial.locals:
+                        trial.locals[name] = V(fresh_val(name), trial.locals[name].ty)
+                        self.trial_consts.append(trial.locals[name].t)
+                c_ = self.truth(trial, self.ev(trial, node.test))
+                trial.pc.append(c_)
+                return self.exec_block(trial, node.body)
+            heap_mod = self.written_fields(st, run_body, heap_mod)
+            alloc_only = dict(self.loop_frame)
+        self.havoc_fields(hs, st, heap_mod, alloc_only)
         for name in mod_names:
             if name in hs.locals:
                 old = hs.locals[name]
                 nv = V(fresh_val(name), old.ty)
                 hs.locals[name] = nv
-                for fct in type_invariant(nv):
-                    hs.assume(fct)
+                hs.assume_type(nv)
         hs.alloc = fresh_int('alloc')
         hs.assume(hs.alloc >= st.alloc)
         for label, src in inv_clauses.items():
@@ -689,8 +801,7 @@ class Executor:
         for o in self.exec_block(bs, node.body):
             if o.kind in ('normal', 'continue'):
                 for label, src in inv_clauses.items():
-                    ctx.add_oblig(o.st, 'inv-step', f'L{ordinal}:{label}',
-                                  self.spec_bool(o.st, src, {}), line=node.lineno)
+                    self.spec_goal(o.st, 'inv-step', f'L{ordinal}:{label}', src, {}, line=node.lineno)
             elif o.kind == 'break':
                 outs.append(Outcome('normal', o.st))
             else:
@@ -721,13 +832,18 @@ class Executor:
             conds.append(z3.And(*rest) if rest else z3.BoolVal(True))
         m = states[0].copy()
         m.pc = list(base[:plen])
-        # locals
-        names = set(states[0].locals)
         for s in states[1:]:
-            names &= set(s.locals)
+            m.fresh |= s.fresh
+            m.nonneg |= s.nonneg
+            m._typed &= s._typed
+            m.havoc_parent.update(s.havoc_parent)
+        # locals (a name bound on some paths only is arbitrary on the others)
+        names = set()
+        for s in states:
+            names |= set(s.locals)
         new_locals = {}
         for nme in names:
-            vs = [s.locals[nme] for s in states]
+            vs = [s.locals[nme] if nme in s.locals else V(fresh_val('undef!' + nme), ANY) for s in states]
             mv = self.merge_vals(vs, conds)
             if mv is None:
                 return states          # cannot merge: keep paths separate
@@ -942,8 +1058,7 @@ class Executor:
                             finally:
                                 self.frames.pop()
             if not st.spec or True:
-                for fct in type_invariant(v):
-                    st.assume(fct)
+                st.assume_type(v)
             return v
         # any: treat as an object reference
         v = V(st.read(as_ref(obj), name), ANY)
@@ -1016,6 +1131,7 @@ class Executor:
         v = self.ev(st, node.operand)
         if isinstance(node.op, ast.Not):
             return v_bool(z3.Not(self.truth(st, v)))
+        v = self.unopt(st, v, node)
         if isinstance(node.op, ast.USub):
             if v.lit is not None and v.kind in ('int', 'real'):
                 return v_int(-v.lit) if v.kind == 'int' else v_real(-v.lit)
@@ -1037,7 +1153,15 @@ class Executor:
 
     NUM = ('int', 'real', 'bool')
 
+    def unopt(self, st, v: V, node, what='operand') -> V:
+        """An Optional value used where a value is needed: obligation `not None`."""
+        if v.kind == 'opt':
+            self.oblige(st, 'safe:none', what, z3.Not(Val.is_none(v.t)), node)
+            return V(v.t, v.ty.args[0], items=v.items)
+        return v
+
     def binop(self, st, op, l: V, r: V, node) -> V:
+        l, r = self.unopt(st, l, node), self.unopt(st, r, node)
         lk, rk = l.kind, r.kind
         opn = type(op).__name__
         if lk in self.NUM and rk in self.NUM:
@@ -1667,6 +1791,14 @@ class Executor:
             st.spec -= 1
             st.locals = saved
 
+    def spec_goal(self, st: State, kind: str, label: str, src, env: dict[str, V], line=0, note='', witness=None):
+        """Obligation whose goal is a specification expression: evaluated on a copy of the
+        state so that facts assumed while evaluating the goal do not leak into the path."""
+        s2 = st.copy()
+        g = self.spec_bool(s2, src, env)
+        self.ctx.add_oblig(s2, kind, label, g, line=line, note=note, witness=witness)
+        return g
+
     def spec_bool(self, st: State, src, env: dict[str, V]):
         v = self.spec_eval(st, src, env)
         return self.truth(st, v)
@@ -1688,9 +1820,8 @@ class Executor:
             # preconditions
             st.locals = env
             for label, src in con.requires.items():
-                g = self.spec_bool(st, src, {})
                 if not st.spec:
-                    self.ctx.add_oblig(st, 'pre@callsite', f'{fi.name}:{label}@L{getattr(node, "lineno", 0)}', g,
+                    g = self.spec_goal(st, 'pre@callsite', f'{fi.name}:{label}@L{getattr(node, "lineno", 0)}', src, {},
                                        line=getattr(node, 'lineno', 0))
                     st.assume(g)
             # raises: a contract may say under which condition the callee raises
@@ -1715,8 +1846,7 @@ class Executor:
             else:
                 res_t = fresh_val('ret!' + fi.name)
             res = V(res_t, rty)
-            for fct in type_invariant(res):
-                st.assume(fct)
+            st.assume_type(res)
             # postconditions
             saved0 = (st.heap0, st.locals0)
             st.heap0, st.locals0 = pre_heap, pre_locals
